@@ -194,6 +194,35 @@ def check_pair(acc, pendulum, a, b):
             for oname, op, wt in (("floordiv", operator.floordiv, "number"), ("truediv", operator.truediv, "number"),
                                   ("mod", operator.mod, "Duration"), ("divmod", divmod, ("number", "Duration"))):
                 _compare(acc, pendulum, oname, f"D-Interval/{lbl}", dict(case, right="Interval/" + lbl), lambda: op(da, iv), lambda: op(ta, tb), wt)
+    # an AbsoluteDuration (what Time.diff() returns; also of a week and more, as Time.diff() * 20 gives) as LEFT operand and
+    # as divisor: its length is |a| / |b|
+    from pendulum.duration import AbsoluteDuration as _AD
+    try:
+        ada, adb = _AD(microseconds=a), (_AD(microseconds=b) if b else None)
+    except OverflowError:
+        ada = adb = None
+    if ada is not None and obs.td_us(ada) == abs(a):
+        taa, tbb = mk_td(abs(a)), mk_td(abs(b))
+        c2 = dict(case, left="AbsoluteDuration")
+
+        def _nonneg(fn):
+            # an AbsoluteDuration has no sign and the results of its arithmetic are AbsoluteDurations again: a native result
+            # below zero is outside what the class can express (not judged)
+            def g():
+                r = fn()
+                parts = r if isinstance(r, tuple) else (r,)
+                if any(isinstance(x, dt_.timedelta) and x < dt_.timedelta(0) for x in parts):
+                    raise ZeroDivisionError("out of scope")
+                return r
+            return g
+        import datetime as dt_
+        for oname, op, wt in (("add", operator.add, "Duration"), ("sub", operator.sub, "Duration"), ("floordiv", operator.floordiv, "number"),
+                              ("truediv", operator.truediv, "number"), ("mod", operator.mod, "Duration"), ("divmod", divmod, ("number", "Duration"))):
+            for rname, right in (("Duration", db), ("timedelta", tb)):
+                _compare(acc, pendulum, oname, f"AbsoluteDuration-{op.__name__}-{rname}", c2, lambda: op(ada, right), _nonneg(lambda: op(taa, tb)), wt)
+            if adb is not None and oname not in ("add", "sub"):
+                _compare(acc, pendulum, oname, f"D-{op.__name__}-AbsoluteDuration", dict(case, right="AbsoluteDuration"), lambda: op(da, adb),
+                         lambda: op(ta, tbb), wt)
     # an Interval as the LEFT operand of every binary operator (forward and inverted ones)
     for lbl, iv in _intervals_of(pendulum, a):
         c2 = dict(case, left="Interval/" + lbl)
@@ -222,6 +251,8 @@ def check_unary_num(acc, pendulum, a, nums):
     for lbl, iv in _intervals_of(pendulum, a):
         _compare(acc, pendulum, "neg", f"Interval/{lbl}", dict(case, left="Interval/" + lbl), lambda: -iv, lambda: -t, "Duration")
         _compare(acc, pendulum, "abs", f"Interval/{lbl}", dict(case, left="Interval/" + lbl), lambda: abs(iv), lambda: abs(t))
+        _compare(acc, pendulum, "hash", f"Interval/{lbl}", dict(case, left="Interval/" + lbl),
+                 lambda: (iv == t, t == iv, hash(iv) == hash(t), {t: 1}.get(iv), iv in {d, t}), lambda: (True, True, True, 1, True))
     _compare(acc, pendulum, "hash", "value", case, lambda: hash(d) == hash(t), lambda: True)
     _compare(acc, pendulum, "eq-twin", "value", case, lambda: (d == t, t == d, d != t), lambda: (True, True, False))
     for n in nums:
@@ -232,6 +263,19 @@ def check_unary_num(acc, pendulum, a, nums):
         _compare(acc, pendulum, "truediv", f"D/{kind}", c2, lambda: d / n, lambda: t / n, "Duration")
         if isinstance(n, int):
             _compare(acc, pendulum, "floordiv", "D//int", c2, lambda: d // n, lambda: t // n, "Duration")
+        from pendulum.duration import AbsoluteDuration as _AD
+        try:
+            ada = _AD(microseconds=a)
+        except OverflowError:
+            ada = None
+        if ada is not None and obs.td_us(ada) == abs(a) and n >= 0:
+            ta_ = abs(t)
+            c4 = dict(c2, left="AbsoluteDuration")
+            _compare(acc, pendulum, "mul", f"AbsoluteDuration*{kind}", c4, lambda: ada * n, lambda: ta_ * n, "Duration")
+            _compare(acc, pendulum, "mul", f"{kind}*AbsoluteDuration", c4, lambda: n * ada, lambda: n * ta_, "Duration")
+            _compare(acc, pendulum, "truediv", f"AbsoluteDuration/{kind}", c4, lambda: ada / n, lambda: ta_ / n, "Duration")
+            if isinstance(n, int):
+                _compare(acc, pendulum, "floordiv", "AbsoluteDuration//int", c4, lambda: ada // n, lambda: ta_ // n, "Duration")
         for lbl, iv in _intervals_of(pendulum, a):
             c3 = dict(c2, left="Interval/" + lbl)
             _compare(acc, pendulum, "mul", f"Interval*{kind}/{lbl}", c3, lambda: iv * n, lambda: t * n, "Duration")
